@@ -26,6 +26,10 @@ def impl_p2d(case):
         G = U.build_pdag(g, lab, case.get("cls", "mixed"))
     except Exception as e:
         return {"res": "err:build:" + type(e).__name__}
+    if C.warm_decide(case, 4):
+        # query, edit the same object in place, query again (see common.warmup)
+        with U.capture_stdout():
+            C.warmup(G, lambda: pdag_to_dag(G), layers=("undirected", "directed"))
     order = [lab.inv(v) for v in G.nodes]
     before = C.snapshot(G)
     out = {"order": order}
